@@ -12,13 +12,14 @@ use std::{
     io::Write,
     pin::Pin,
     rc::Rc,
+    sync::Arc,
     task::{Context, Poll, RawWaker, RawWakerVTable, Waker},
 };
 
 use actix_service::{
     apply, apply_cfg, apply_cfg_factory, apply_fn, apply_fn_factory, boxed, fn_factory,
-    fn_factory_with_config, fn_service, map_config, unit_config, Service, ServiceExt,
-    ServiceFactory, ServiceFactoryExt, Transform,
+    fn_factory_with_config, fn_service, into_service, map_config, unit_config, Service, ServiceExt,
+    ServiceFactory, ServiceFactoryExt, Transform, TransformExt,
 };
 use vh::*;
 
@@ -40,6 +41,14 @@ enum WK {
     RefCell,
     Ref,
     Box,
+    RefMut,
+}
+/// how a `Transform` value is handed to `apply`: by value, in an `Rc`, in an `Arc`
+#[derive(Clone, Copy, Debug, PartialEq, Eq)]
+enum PK {
+    Plain,
+    Rc,
+    Arc,
 }
 
 #[derive(Clone, Debug, PartialEq, Eq)]
@@ -63,13 +72,15 @@ enum F {
     MapInitErr(Box<F>, u32),
     Then(Box<F>, Box<F>),
     Apply(Box<F>, AK, u32),
-    Transform { t: u32, tp: u32, tok: bool, rc: bool, a: Box<F> },
+    /// `apply(transform, factory)`; `mie: Some(m)` = `TransformExt::map_init_err(transform, m)`
+    Transform { t: u32, tp: u32, tok: bool, pk: PK, mie: Option<u32>, a: Box<F> },
     ApplyCfg { s: S, f: u32, ip: u32, iok: bool },
     ApplyCfgFac { a: Box<F>, f: u32, ip: u32, iok: bool },
     MapConfig(Box<F>, u32),
     UnitConfig(Box<F>),
     Boxed(Box<F>),
     Rc(Box<F>),
+    Arc(Box<F>),
 }
 
 fn oe(b: bool) -> &'static str {
@@ -98,6 +109,16 @@ impl fmt::Display for WK {
             WK::RefCell => "refcell",
             WK::Ref => "ref",
             WK::Box => "box",
+            WK::RefMut => "refmut",
+        })
+    }
+}
+impl fmt::Display for PK {
+    fn fmt(&self, f: &mut fmt::Formatter<'_>) -> fmt::Result {
+        f.write_str(match self {
+            PK::Plain => "plain",
+            PK::Rc => "rc",
+            PK::Arc => "arc",
         })
     }
 }
@@ -127,15 +148,15 @@ impl fmt::Display for F {
             F::MapInitErr(a, f) => write!(o, "(fmapiniterr {a} {f})"),
             F::Then(a, b) => write!(o, "(fthen {a} {b})"),
             F::Apply(a, k, n) => write!(o, "(fapply {k} {n} {a})"),
-            F::Transform { t, tp, tok, rc, a } => {
-                write!(o, "(transform {t} {tp} {} {} {a})", oe(*tok), if *rc { "rc" } else { "plain" })
-            }
+            F::Transform { t, tp, tok, pk, mie: None, a } => write!(o, "(transform {t} {tp} {} {pk} {a})", oe(*tok)),
+            F::Transform { t, tp, tok, pk, mie: Some(m), a } => write!(o, "(transformerr {t} {tp} {} {pk} {m} {a})", oe(*tok)),
             F::ApplyCfg { s, f, ip, iok } => write!(o, "(applycfg {s} {f} {ip} {})", oe(*iok)),
             F::ApplyCfgFac { a, f, ip, iok } => write!(o, "(applycfgfac {a} {f} {ip} {})", oe(*iok)),
             F::MapConfig(a, f) => write!(o, "(mapconfig {a} {f})"),
             F::UnitConfig(a) => write!(o, "(unitconfig {a})"),
             F::Boxed(a) => write!(o, "(fboxed {a})"),
             F::Rc(a) => write!(o, "(frc {a})"),
+            F::Arc(a) => write!(o, "(farc {a})"),
         }
     }
 }
@@ -232,6 +253,7 @@ impl<'a> P<'a> {
                     "refcell" => WK::RefCell,
                     "ref" => WK::Ref,
                     "box" => WK::Box,
+                    "refmut" => WK::RefMut,
                     _ => return None,
                 };
                 S::Wrap(wk, Box::new(self.svc()?))
@@ -278,16 +300,18 @@ impl<'a> P<'a> {
                 let n = self.num()?;
                 F::Apply(Box::new(self.fac()?), k, n)
             }
-            "transform" => {
+            "transform" | "transformerr" => {
                 let t = self.num()?;
                 let tp = self.num()?;
                 let tok = self.ok_err()?;
-                let rc = match self.next()? {
-                    "rc" => true,
-                    "plain" => false,
+                let pk = match self.next()? {
+                    "rc" => PK::Rc,
+                    "plain" => PK::Plain,
+                    "arc" => PK::Arc,
                     _ => return None,
                 };
-                F::Transform { t, tp, tok, rc, a: Box::new(self.fac()?) }
+                let mie = if head == "transformerr" { Some(self.num()?) } else { None };
+                F::Transform { t, tp, tok, pk, mie, a: Box::new(self.fac()?) }
             }
             "applycfg" => {
                 let s = self.svc()?;
@@ -304,6 +328,7 @@ impl<'a> P<'a> {
             "unitconfig" => F::UnitConfig(Box::new(self.fac()?)),
             "fboxed" => F::Boxed(Box::new(self.fac()?)),
             "frc" => F::Rc(Box::new(self.fac()?)),
+            "farc" => F::Arc(Box::new(self.fac()?)),
             _ => return None,
         };
         self.expect(")")?;
@@ -335,7 +360,7 @@ fn fac_leaf_ids(f: &F, out: &mut Vec<u32>) {
         F::Fn { .. } => {}
         F::Map(a, _) | F::MapErr(a, _) | F::MapInitErr(a, _) | F::Apply(a, _, _) | F::MapConfig(a, _) => fac_leaf_ids(a, out),
         F::Transform { a, .. } | F::ApplyCfgFac { a, .. } => fac_leaf_ids(a, out),
-        F::UnitConfig(a) | F::Boxed(a) | F::Rc(a) => fac_leaf_ids(a, out),
+        F::UnitConfig(a) | F::Boxed(a) | F::Rc(a) | F::Arc(a) => fac_leaf_ids(a, out),
         F::Then(a, b) => {
             fac_leaf_ids(a, out);
             fac_leaf_ids(b, out)
@@ -423,7 +448,43 @@ fn take_log() -> Vec<Ev> {
     LOG.with(|l| std::mem::take(&mut *l.borrow_mut()))
 }
 
-static VTABLE: RawWakerVTable = RawWakerVTable::new(|p| RawWaker::new(p, &VTABLE), |_| {}, |_| {}, |_| {});
+thread_local! {
+    /// wake-ups received per waker identity (index = identity)
+    static WAKES: RefCell<Vec<u32>> = const { RefCell::new(Vec::new()) };
+    /// the "reactor": wakers parked by scripted leaves that answered Pending
+    static PARKED: RefCell<Vec<Waker>> = const { RefCell::new(Vec::new()) };
+}
+fn note_wake(p: *const ()) {
+    let id = p as usize;
+    WAKES.with(|w| {
+        let mut w = w.borrow_mut();
+        if id >= w.len() {
+            w.resize(id + 1, 0);
+        }
+        w[id] += 1;
+    })
+}
+fn wakes_of(id: usize) -> u32 {
+    WAKES.with(|w| w.borrow().get(id).copied().unwrap_or(0))
+}
+/// a scripted leaf that answers Pending keeps a clone of the waker it was polled with
+fn park(cx: &Context<'_>) {
+    let w = cx.waker().clone();
+    PARKED.with(|p| p.borrow_mut().push(w));
+}
+/// the awaited events happen: every parked waker is woken (and forgotten)
+fn fire() {
+    let v = PARKED.with(|p| std::mem::take(&mut *p.borrow_mut()));
+    for w in v {
+        w.wake();
+    }
+}
+fn reset_reactor() {
+    PARKED.with(|p| p.borrow_mut().clear());
+}
+
+/// the data pointer *is* the identity; wake-ups are counted per identity
+static VTABLE: RawWakerVTable = RawWakerVTable::new(|p| RawWaker::new(p, &VTABLE), note_wake, note_wake, |_| {});
 const FOREIGN_WAKER: usize = 999_999;
 
 fn make_waker(id: usize) -> Waker {
@@ -465,6 +526,7 @@ impl Future for LeafFut {
         if self.pend > 0 {
             self.pend -= 1;
             log(Ev::Polled(self.id, w, None));
+            park(cx);
             Poll::Pending
         } else {
             self.fin = true;
@@ -490,6 +552,7 @@ impl Service<u32> for LeafSvc {
         if self.rp.get() > 0 {
             self.rp.set(self.rp.get() - 1);
             log(Ev::Rdy(self.id, w, None));
+            park(cx);
             Poll::Pending
         } else if self.rok {
             log(Ev::Rdy(self.id, w, Some(Ok(()))));
@@ -557,6 +620,7 @@ impl<T> Future for InitFut<T> {
         if self.pend > 0 {
             self.pend -= 1;
             log(Ev::IPolled(self.id, w, None));
+            park(cx);
             Poll::Pending
         } else {
             self.fin = true;
@@ -584,6 +648,10 @@ impl Transform<BS, u32> for ScriptedT {
         InitFut::new(t, self.tp, move || if tok { Ok(Mw { inner: service, t }) } else { Err(init_err(t, 0)) })
     }
 }
+
+/// the blanket impl of `TransformExt` in the crate only covers `T: Transform<T, Req>`; the trait is
+/// public and all its methods are provided, so a user implements it for the service type at hand
+impl TransformExt<BS, u32> for ScriptedT {}
 
 /// `Config = ()` view of a factory (needed by `unit_config`)
 struct Unit0(BF);
@@ -664,7 +732,26 @@ fn build_svc(s: &S) -> BS {
                 mapfn(f, e)
             }))
         }
-        S::Then(a, b) => boxed::service(build_svc(a).and_then(build_svc(b))),
+        // a closure as second stage goes through `IntoService for F: Fn(Req) -> Fut` (FnService);
+        // a closure as first stage through `into_service`
+        S::Then(a, b) => match (&**a, &**b) {
+            (_, S::Fn { id, cok }) => {
+                let (id, cok) = (*id, *cok);
+                boxed::service(build_svc(a).and_then(move |req: u32| {
+                    log(Ev::Called(id, req));
+                    LeafFut { id, pend: 0, res: leaf_res(id, cok, req), fin: false }
+                }))
+            }
+            (S::Fn { id, cok }, _) => {
+                let (id, cok) = (*id, *cok);
+                let first = into_service(move |req: u32| {
+                    log(Ev::Called(id, req));
+                    LeafFut { id, pend: 0, res: leaf_res(id, cok, req), fin: false }
+                });
+                boxed::service(first.and_then(build_svc(b)))
+            }
+            _ => boxed::service(build_svc(a).and_then(build_svc(b))),
+        },
         S::Apply(s, kind, k) => boxed::service(apply_fn(build_svc(s), wrap_closure(*kind, *k))),
         S::Wrap(w, s) => {
             let inner = build_svc(s);
@@ -678,9 +765,29 @@ fn build_svc(s: &S) -> BS {
                     boxed::service(leaked)
                 }
                 WK::Box => boxed::service(Box::new(inner)),
+                WK::RefMut => {
+                    let leaked: &'static mut BS = Box::leak(Box::new(inner));
+                    boxed::service(leaked)
+                }
             }
         }
         S::Mw(s, t) => boxed::service(Mw { inner: build_svc(s), t: *t }),
+    }
+}
+
+/// the `fn_factory` closure of a leaf factory that ignores its config
+fn nocfg_leaf(f: &F) -> Option<impl Fn() -> InitFut<BS> + Clone> {
+    match f {
+        F::Leaf { id, ip, iok, use_cfg: false, s } => {
+            let (id, ip, iok) = (*id, *ip, *iok);
+            let s = s.clone();
+            Some(move || {
+                log(Ev::New(id, 0));
+                let s = s.clone();
+                InitFut::new(id, ip, move || if iok { Ok(build_svc(&s)) } else { Err(init_err(id, 0)) })
+            })
+        }
+        _ => None,
     }
 }
 
@@ -734,14 +841,38 @@ fn build_fac(f: &F) -> BF {
                 mapfn(f, e)
             }))
         }
-        F::Then(a, b) => boxed::factory(build_fac(a).and_then(build_fac(b))),
-        F::Apply(a, kind, k) => boxed::factory(apply_fn_factory(build_fac(a), wrap_closure(*kind, *k))),
-        F::Transform { t, tp, tok, rc, a } => {
+        // a `fn_factory`-style closure (leaf that ignores the config) handed over directly goes through
+        // `IntoServiceFactory for F: Fn() -> Fut` (FnServiceNoConfig)
+        F::Then(a, b) => match nocfg_leaf(b) {
+            Some(c) => boxed::factory(build_fac(a).and_then(c)),
+            None => boxed::factory(build_fac(a).and_then(build_fac(b))),
+        },
+        F::Apply(a, kind, k) => match nocfg_leaf(a) {
+            Some(c) => boxed::factory(apply_fn_factory(c, wrap_closure(*kind, *k))),
+            None => boxed::factory(apply_fn_factory(build_fac(a), wrap_closure(*kind, *k))),
+        },
+        F::Transform { t, tp, tok, pk, mie, a } => {
             let tr = ScriptedT { t: *t, tp: *tp, tok: *tok };
-            if *rc {
-                boxed::factory(apply(Rc::new(tr), build_fac(a)))
-            } else {
-                boxed::factory(apply(tr, build_fac(a)))
+            let inner = build_fac(a);
+            match (mie, pk) {
+                (None, PK::Plain) => match nocfg_leaf(a) {
+                    Some(c) => boxed::factory(apply(tr, c)),
+                    None => boxed::factory(apply(tr, inner)),
+                },
+                (None, PK::Rc) => boxed::factory(apply(Rc::new(tr), inner)),
+                (None, PK::Arc) => boxed::factory(apply(Arc::new(tr), inner)),
+                (Some(m), pk) => {
+                    let m = *m;
+                    let tr = tr.map_init_err(move |e: u32| {
+                        log(Ev::Mapped('h', m, e));
+                        mapfn(m, e)
+                    });
+                    match pk {
+                        PK::Plain => boxed::factory(apply(tr, inner)),
+                        PK::Rc => boxed::factory(apply(Rc::new(tr), inner)),
+                        PK::Arc => boxed::factory(apply(Arc::new(tr), inner)),
+                    }
+                }
             }
         }
         F::ApplyCfg { s, f, ip, iok } => {
@@ -763,14 +894,22 @@ fn build_fac(f: &F) -> BF {
         }
         F::MapConfig(a, f) => {
             let f = *f;
-            boxed::factory(map_config(build_fac(a), move |c: u32| {
+            let g = move |c: u32| {
                 log(Ev::Mapped('g', f, c));
                 mapfn(f, c)
-            }))
+            };
+            match nocfg_leaf(a) {
+                Some(c) => boxed::factory(map_config::<_, _, u32, _, u32>(c, g)),
+                None => boxed::factory(map_config(build_fac(a), g)),
+            }
         }
-        F::UnitConfig(a) => boxed::factory(unit_config::<_, _, u32, u32>(Unit0(build_fac(a)))),
+        F::UnitConfig(a) => match nocfg_leaf(a) {
+            Some(c) => boxed::factory(unit_config::<_, _, u32, u32>(c)),
+            None => boxed::factory(unit_config::<_, _, u32, u32>(Unit0(build_fac(a)))),
+        },
         F::Boxed(a) => boxed::factory(build_fac(a)),
         F::Rc(a) => boxed::factory(Rc::new(build_fac(a))),
+        F::Arc(a) => boxed::factory(Arc::new(build_fac(a))),
     }
 }
 
@@ -861,7 +1000,8 @@ fn sync_ast(s: &mut S) {
 
 /// what `poll_ready` must answer now: ready iff every inner service is ready, an inner error
 /// (mapped by the enclosing map_err) instead of ready, else pending.  `None` = Pending.
-fn ref_ready(s: &S) -> Option<Result<(), u32>> {
+/// `evs` receives the applications of `map_err` closures to the readiness error.
+fn ref_ready_ev(s: &S, evs: &mut Vec<Ev>) -> Option<Result<(), u32>> {
     match s {
         S::Leaf { id, rp, rok, .. } => {
             if *rp > 0 {
@@ -873,14 +1013,20 @@ fn ref_ready(s: &S) -> Option<Result<(), u32>> {
             }
         }
         S::Fn { .. } => Some(Ok(())),
-        S::MapErr(s, f) => ref_ready(s).map(|r| r.map_err(|e| mapfn(*f, e))),
-        S::Map(s, _) | S::Apply(s, _, _) | S::Wrap(_, s) | S::Mw(s, _) => ref_ready(s),
+        S::MapErr(s, f) => match ref_ready_ev(s, evs) {
+            Some(Err(e)) => {
+                evs.push(Ev::Mapped('e', *f, e));
+                Some(Err(mapfn(*f, e)))
+            }
+            r => r,
+        },
+        S::Map(s, _) | S::Apply(s, _, _) | S::Wrap(_, s) | S::Mw(s, _) => ref_ready_ev(s, evs),
         S::Then(a, b) => {
-            let ra = ref_ready(a);
+            let ra = ref_ready_ev(a, evs);
             if let Some(Err(e)) = ra {
                 return Some(Err(e));
             }
-            let rb = ref_ready(b);
+            let rb = ref_ready_ev(b, evs);
             if let Some(Err(e)) = rb {
                 return Some(Err(e));
             }
@@ -892,12 +1038,17 @@ fn ref_ready(s: &S) -> Option<Result<(), u32>> {
         }
     }
 }
+fn ref_ready(s: &S) -> Option<Result<(), u32>> {
+    ref_ready_ev(s, &mut vec![])
+}
 
 /// rounds of "every pending inner service is polled once" until readiness is decided
-fn ref_ready_rounds(s: &mut S) -> (u32, Result<(), u32>) {
+fn ref_ready_rounds(s: &mut S, evs: &mut Vec<Ev>) -> (u32, Result<(), u32>) {
     let mut t = 0;
     loop {
-        if let Some(r) = ref_ready(s) {
+        let mut e = vec![];
+        if let Some(r) = ref_ready_ev(s, &mut e) {
+            evs.extend(e);
             return (t, r);
         }
         leaves_mut(s, &mut |_, rp| *rp = rp.saturating_sub(1));
@@ -909,31 +1060,56 @@ struct FacRef {
     pend: u32,
     res: Result<S, u32>,
 }
-/// reference for `new_service(cfg)`: number of Pending polls, result, and (in `news`) which leaf
-/// factories are asked for a service with which config
-fn ref_fac(f: &F, cfg: u32, news: &mut Vec<(u32, u32)>) -> FacRef {
+/// the readiness gate of one `apply_cfg_factory` node (state B): what the reference expects
+struct Gate {
+    f: u32,
+    cfg: u32,
+    leaf_ids: Vec<u32>,
+    /// Pending rounds before the verdict, and the verdict (only if the inner factory succeeds)
+    expect: Option<(u32, Result<(), u32>)>,
+}
+#[derive(Default)]
+struct FacTrace {
+    /// which leaf factories are asked for a service, with which config
+    news: Vec<(u32, u32)>,
+    /// every non-Pending, non-readiness event of a complete run of every node (waker 0)
+    evs: Vec<Ev>,
+    gates: Vec<Gate>,
+    /// closure ids of apply_cfg / apply_cfg_factory nodes
+    cfg_fn_ids: Vec<u32>,
+    joins: u32,
+}
+/// reference for `new_service(cfg)`: number of Pending polls, result, and the expected trace
+fn ref_fac(f: &F, cfg: u32, tr: &mut FacTrace) -> FacRef {
     match f {
         F::Leaf { id, ip, iok, use_cfg, s } => {
             let c = if *use_cfg { cfg } else { 0 };
-            news.push((*id, c));
-            FacRef { pend: *ip, res: if *iok { Ok(s.clone()) } else { Err(init_err(*id, c)) } }
+            tr.news.push((*id, c));
+            tr.evs.push(Ev::New(*id, c));
+            let res = if *iok { Ok(s.clone()) } else { Err(init_err(*id, c)) };
+            tr.evs.push(Ev::IPolled(*id, 0, Some(res.as_ref().map(|_| ()).map_err(|e| *e))));
+            FacRef { pend: *ip, res }
         }
         F::Fn { id, cok } => FacRef { pend: 0, res: Ok(S::Fn { id: *id, cok: *cok }) },
         F::Map(a, m) => {
-            let r = ref_fac(a, cfg, news);
+            let r = ref_fac(a, cfg, tr);
             FacRef { pend: r.pend, res: r.res.map(|s| S::Map(Box::new(s), *m)) }
         }
         F::MapErr(a, m) => {
-            let r = ref_fac(a, cfg, news);
+            let r = ref_fac(a, cfg, tr);
             FacRef { pend: r.pend, res: r.res.map(|s| S::MapErr(Box::new(s), *m)) }
         }
         F::MapInitErr(a, m) => {
-            let r = ref_fac(a, cfg, news);
+            let r = ref_fac(a, cfg, tr);
+            if let Err(e) = &r.res {
+                tr.evs.push(Ev::Mapped('h', *m, *e));
+            }
             FacRef { pend: r.pend, res: r.res.map_err(|e| mapfn(*m, e)) }
         }
         F::Then(a, b) => {
-            let ra = ref_fac(a, cfg, news);
-            let rb = ref_fac(b, cfg, news);
+            tr.joins += 1;
+            let ra = ref_fac(a, cfg, tr);
+            let rb = ref_fac(b, cfg, tr);
             match (ra.res, rb.res) {
                 // the error of the factory that fails at the earliest poll; ties go to the left
                 (Err(ea), Err(eb)) => {
@@ -949,45 +1125,78 @@ fn ref_fac(f: &F, cfg: u32, news: &mut Vec<(u32, u32)>) -> FacRef {
             }
         }
         F::Apply(a, kind, k) => {
-            let r = ref_fac(a, cfg, news);
+            let r = ref_fac(a, cfg, tr);
             FacRef { pend: r.pend, res: r.res.map(|s| S::Apply(Box::new(s), *kind, *k)) }
         }
-        F::Transform { t, tp, tok, a, .. } => {
-            let r = ref_fac(a, cfg, news);
+        F::Transform { t, tp, tok, mie, a, .. } => {
+            let r = ref_fac(a, cfg, tr);
             match r.res {
                 Err(e) => FacRef { pend: r.pend, res: Err(e) },
-                Ok(s) => FacRef { pend: r.pend + tp, res: if *tok { Ok(S::Mw(Box::new(s), *t)) } else { Err(init_err(*t, 0)) } },
+                Ok(s) => {
+                    tr.evs.push(Ev::NewTransform(*t));
+                    let res = if *tok { Ok(S::Mw(Box::new(s), *t)) } else { Err(init_err(*t, 0)) };
+                    tr.evs.push(Ev::IPolled(*t, 0, Some(res.as_ref().map(|_| ()).map_err(|e| *e))));
+                    let res = match (res, mie) {
+                        (Err(e), Some(m)) => {
+                            tr.evs.push(Ev::Mapped('h', *m, e));
+                            Err(mapfn(*m, e))
+                        }
+                        (r, _) => r,
+                    };
+                    FacRef { pend: r.pend + tp, res }
+                }
             }
         }
-        F::ApplyCfg { s, f, ip, iok } => FacRef {
-            pend: *ip,
-            res: if *iok { Ok(S::Mw(Box::new(S::Wrap(WK::Rc, Box::new(s.clone()))), mapfn(*f, cfg))) } else { Err(init_err(*f, cfg)) },
-        },
+        F::ApplyCfg { s, f, ip, iok } => {
+            tr.cfg_fn_ids.push(*f);
+            tr.evs.push(Ev::Mapped('f', *f, cfg));
+            let res = if *iok { Ok(S::Mw(Box::new(S::Wrap(WK::Rc, Box::new(s.clone()))), mapfn(*f, cfg))) } else { Err(init_err(*f, cfg)) };
+            tr.evs.push(Ev::IPolled(*f, 0, Some(res.as_ref().map(|_| ()).map_err(|e| *e))));
+            FacRef { pend: *ip, res }
+        }
         F::ApplyCfgFac { a, f, ip, iok } => {
-            let r = ref_fac(a, 0, news);
+            tr.cfg_fn_ids.push(*f);
+            let r = ref_fac(a, 0, tr);
+            let mut leaf_ids = vec![];
+            fac_leaf_ids(a, &mut leaf_ids);
+            let gi = tr.gates.len();
+            tr.gates.push(Gate { f: *f, cfg, leaf_ids, expect: None });
             match r.res {
                 Err(e) => FacRef { pend: r.pend, res: Err(e) },
-                Ok(mut s) => match ref_ready_rounds(&mut s) {
-                    (t, Err(e)) => FacRef { pend: r.pend + t, res: Err(e) },
-                    (t, Ok(())) => FacRef {
-                        pend: r.pend + t + ip,
-                        res: if *iok { Ok(S::Mw(Box::new(S::Wrap(WK::Rc, Box::new(s))), mapfn(*f, cfg))) } else { Err(init_err(*f, cfg)) },
-                    },
-                },
+                Ok(mut s) => {
+                    // only the leaves of the service that was actually built are asked for readiness
+                    let mut ids = vec![];
+                    svc_leaf_ids(&s, &mut ids);
+                    tr.gates[gi].leaf_ids = ids;
+                    let (t, verdict) = ref_ready_rounds(&mut s, &mut tr.evs);
+                    tr.gates[gi].expect = Some((t, verdict));
+                    match verdict {
+                        Err(e) => FacRef { pend: r.pend + t, res: Err(e) },
+                        Ok(()) => {
+                            tr.evs.push(Ev::Mapped('f', *f, cfg));
+                            let res = if *iok { Ok(S::Mw(Box::new(S::Wrap(WK::Rc, Box::new(s))), mapfn(*f, cfg))) } else { Err(init_err(*f, cfg)) };
+                            tr.evs.push(Ev::IPolled(*f, 0, Some(res.as_ref().map(|_| ()).map_err(|e| *e))));
+                            FacRef { pend: r.pend + t + ip, res }
+                        }
+                    }
+                }
             }
         }
-        F::MapConfig(a, m) => ref_fac(a, mapfn(*m, cfg), news),
-        F::UnitConfig(a) => ref_fac(a, 0, news),
+        F::MapConfig(a, m) => {
+            tr.evs.push(Ev::Mapped('g', *m, cfg));
+            ref_fac(a, mapfn(*m, cfg), tr)
+        }
+        F::UnitConfig(a) => ref_fac(a, 0, tr),
         F::Boxed(a) => {
-            let r = ref_fac(a, cfg, news);
+            let r = ref_fac(a, cfg, tr);
             FacRef { pend: r.pend, res: r.res.map(|s| S::Wrap(WK::Boxed, Box::new(s))) }
         }
-        F::Rc(a) => ref_fac(a, cfg, news),
+        F::Rc(a) | F::Arc(a) => ref_fac(a, cfg, tr),
     }
 }
 
 // ------------------------------------------------------------------------------------------------
-// manual executor and the `run` sub-command
+// wake-driven manual executor and the `run` sub-command
 // ------------------------------------------------------------------------------------------------
 
 const FUEL: usize = 64;
@@ -996,24 +1205,40 @@ struct PollRec {
     w: usize,
     from: usize, // index into the log where this poll's events start
     pending: bool,
+    wakes: u32, // wake-ups received on this poll's waker after the poll
 }
 
-/// drive `fut` to completion with a fresh waker identity per poll; `w` is advanced
-fn drive<T>(mut fut: Pin<&mut (dyn Future<Output = T> + '_)>, w: &Cell<usize>, polls: &RefCell<Vec<PollRec>>) -> Option<T> {
+enum Drv<T> {
+    Done(T),
+    /// the future answered Pending and no wake-up for the waker of that poll ever comes
+    Stalled,
+    Fuel,
+}
+
+/// Drive `fut` with a fresh waker identity per poll; `w` is advanced.  After every poll the parked
+/// wakers fire; the future is polled again only if the waker of the latest poll was woken — never
+/// busy-polled.
+fn drive<T>(mut fut: Pin<&mut (dyn Future<Output = T> + '_)>, w: &Cell<usize>, polls: &RefCell<Vec<PollRec>>) -> Drv<T> {
     for _ in 0..FUEL {
         let id = w.get();
         let waker = make_waker(id);
         let mut cx = Context::from_waker(&waker);
         let from = LOG.with(|l| l.borrow().len());
-        polls.borrow_mut().push(PollRec { w: id, from, pending: true });
+        polls.borrow_mut().push(PollRec { w: id, from, pending: true, wakes: 0 });
         let r = fut.as_mut().poll(&mut cx);
         w.set(id + 1);
+        fire();
+        let k = wakes_of(id);
+        polls.borrow_mut().last_mut().unwrap().wakes = k;
         if let Poll::Ready(v) = r {
             polls.borrow_mut().last_mut().unwrap().pending = false;
-            return Some(v);
+            return Drv::Done(v);
+        }
+        if k == 0 {
+            return Drv::Stalled;
         }
     }
-    None
+    Drv::Fuel
 }
 
 fn fmt_log(l: &[Ev]) -> String {
@@ -1022,8 +1247,10 @@ fn fmt_log(l: &[Ev]) -> String {
 }
 
 /// C12 checks common to call futures and init futures, on the events of one drive
-fn check_polls(rep: &mut Report, what: &str, log: &[Ev], polls: &[PollRec]) {
+fn check_polls(rep: &mut Report, what: &str, log: &[Ev], polls: &[PollRec], panicked: bool) {
     for (i, p) in polls.iter().enumerate() {
+        // a poll that panicked did not answer at all (reported separately)
+        let answered = !(panicked && i + 1 == polls.len());
         let to = polls.get(i + 1).map(|q| q.from).unwrap_or(log.len());
         let evs = &log[p.from.min(log.len())..to.min(log.len())];
         let mut inner_pending = false;
@@ -1039,8 +1266,100 @@ fn check_polls(rep: &mut Report, what: &str, log: &[Ev], polls: &[PollRec]) {
             }
             inner_pending |= pend;
         }
-        if p.pending && !inner_pending {
+        if answered && p.pending && !inner_pending {
             rep.t3("C12", &format!("pending-without-inner-pending: {what}: poll {} returned Pending although no inner future/service was pending with the current waker", p.w));
+        }
+        if answered && p.pending && p.wakes == 0 {
+            rep.t3("C12", &format!("lost-wakeup: {what}: poll {} returned Pending {} but no wake-up for its waker was arranged: a wake-driven executor never polls the future again", p.w, fmt_log(evs)));
+        }
+    }
+}
+
+/// the non-Pending, non-readiness events of a log with waker identities erased
+fn decisive(log: &[Ev]) -> Vec<Ev> {
+    log.iter()
+        .filter_map(|e| match e {
+            Ev::Polled(_, _, None) | Ev::IPolled(_, _, None) | Ev::Rdy(..) => None,
+            Ev::Polled(id, _, r) => Some(Ev::Polled(*id, 0, *r)),
+            Ev::IPolled(id, _, r) => Some(Ev::IPolled(*id, 0, *r)),
+            e => Some(e.clone()),
+        })
+        .collect()
+}
+/// multiset difference `a - b`
+fn ms_minus(a: &[Ev], b: &[Ev]) -> Vec<Ev> {
+    let mut b: Vec<Option<&Ev>> = b.iter().map(Some).collect();
+    let mut out = vec![];
+    for e in a {
+        if let Some(slot) = b.iter_mut().find(|x| **x == Some(e)) {
+            *slot = None;
+        } else {
+            out.push(e.clone());
+        }
+    }
+    out
+}
+
+#[derive(Clone, Copy, PartialEq, Eq, Debug)]
+enum Verdict {
+    Pending,
+    Ok,
+    Err,
+}
+
+/// C12 oracles on the log of one `new_service` drive: readiness errors and the readiness gate
+fn check_fac_readiness(rep: &mut Report, what: &str, log: &[Ev], res: &str, got_err: bool, tr: &FacTrace) {
+    // (a) an inner readiness error is reported instead of ready: once a created service answered
+    //     poll_ready with Err the future must resolve to an error in that very poll and no further
+    //     stage (factory, transform, configure closure, inner poll) may run
+    if let Some(i) = log.iter().position(|e| matches!(e, Ev::Rdy(_, _, Some(Err(_))))) {
+        let later: Vec<Ev> = log[i + 1..].iter().filter(|e| !matches!(e, Ev::Mapped('e', ..) | Ev::Mapped('h', ..))).cloned().collect();
+        if !got_err || !later.is_empty() {
+            rep.t3(
+                "C12",
+                &format!(
+                    "ready-err-not-reported: {what}: the created inner service answered poll_ready with {} but the factory future went on {} and resolved to {res}; an inner readiness error must be reported (as the init error) instead of ready",
+                    log[i],
+                    fmt_log(&later)
+                ),
+            );
+        }
+    }
+    // (b) the configure closure of apply_cfg_factory runs only after the created service reported
+    //     Ready(Ok) (every inner service ready), never while it is Pending / without asking
+    for g in &tr.gates {
+        if tr.cfg_fn_ids.iter().filter(|x| **x == g.f).count() != 1 || g.leaf_ids.is_empty() {
+            continue;
+        }
+        for (i, e) in log.iter().enumerate() {
+            if *e != Ev::Mapped('f', g.f, g.cfg) {
+                continue;
+            }
+            // the readiness answers of the latest poll_ready of the created service before the closure
+            let last_w = log[..i].iter().rev().find_map(|e| match e {
+                Ev::Rdy(id, w, _) if g.leaf_ids.contains(id) => Some(*w),
+                _ => None,
+            });
+            let verdict = last_w.map(|lw| {
+                let mut v = Verdict::Ok;
+                for e in &log[..i] {
+                    if let Ev::Rdy(id, w, r) = e {
+                        if *w == lw && g.leaf_ids.contains(id) {
+                            match r {
+                                Some(Err(_)) => v = Verdict::Err,
+                                None if v == Verdict::Ok => v = Verdict::Pending,
+                                _ => {}
+                            }
+                        }
+                    }
+                }
+                v
+            });
+            match verdict {
+                Some(Verdict::Ok) => {}
+                Some(v) => rep.t3("C12", &format!("configured-while-not-ready: {what}: the configure closure {} ran although the created service had answered poll_ready with {v:?} (waker {}); it may run only after Ready(Ok)", log[i], last_w.unwrap())),
+                None => rep.t3("C12", &format!("configured-without-readiness: {what}: the configure closure {} ran before the created service was asked for readiness", log[i])),
+            }
         }
     }
 }
@@ -1050,17 +1369,20 @@ fn run(a: &Args) {
     let mut rep = Report::new(&a.output);
     let mut cur: Option<BS> = None;
     let mut cur_ast: Option<S> = None;
+    let mut cov = Coverage::default();
     let w = Cell::new(0usize);
     for line in in_lines(&a.input) {
         let toks = tokenize(&line);
         let head = toks.first().map(|s| s.as_str()).unwrap_or("");
         take_log();
+        reset_reactor();
         REPOLL.with(|r| r.set(false));
         let real: String = match head {
             "case" => {
                 cur = None;
                 cur_ast = None;
                 w.set(0);
+                WAKES.with(|w| w.borrow_mut().clear());
                 REG.with(|r| r.borrow_mut().clear());
                 "ok".into()
             }
@@ -1090,6 +1412,8 @@ fn run(a: &Args) {
                     svc.poll_ready(&mut cx)
                 });
                 w.set(id + 1);
+                fire();
+                let k = wakes_of(id);
                 let log = take_log();
                 let res = match &r {
                     Ok(Poll::Pending) => "pending".to_string(),
@@ -1099,7 +1423,9 @@ fn run(a: &Args) {
                 };
                 // ---- T3 (C12) on the real behaviour
                 if let Some(ast) = cur_ast.as_mut() {
-                    let want = ref_ready(ast);
+                    cov.ready(ast);
+                    let mut want_maps = vec![];
+                    let want = ref_ready_ev(ast, &mut want_maps);
                     let got = match &r {
                         Ok(Poll::Pending) => Some(None),
                         Ok(Poll::Ready(x)) => Some(Some(*x)),
@@ -1107,6 +1433,10 @@ fn run(a: &Args) {
                     };
                     if got != Some(want) {
                         rep.t3("C12", &format!("ready-conj: poll_ready of {ast} answered {res}, the conjunction of the inner services is {want:?}"));
+                    }
+                    let got_maps: Vec<Ev> = log.iter().filter(|e| matches!(e, Ev::Mapped(..))).cloned().collect();
+                    if got_maps != want_maps {
+                        rep.t3("C12", &format!("ready-err-mapping: poll_ready of {ast}: the map_err closures ran as {} but the readiness error must pass through exactly {} (each enclosing map_err once, inside out)", fmt_log(&got_maps), fmt_log(&want_maps)));
                     }
                     let mut ls = vec![];
                     leaves(ast, &mut ls);
@@ -1137,33 +1467,42 @@ fn run(a: &Args) {
                         if !any {
                             rep.t3("C12", &format!("pending-without-inner-pending: poll_ready of {ast} answered Pending although no inner service is pending"));
                         }
+                        if k == 0 {
+                            rep.t3("C12", &format!("lost-wakeup: poll_ready of {ast} answered Pending {} but no wake-up for the current waker {id} was arranged", fmt_log(&log)));
+                        }
                     }
                     sync_ast(ast);
                 }
-                format!("{} r={res}", fmt_log(&log))
+                if r.is_err() {
+                    format!("{} r={res}", fmt_log(&log))
+                } else {
+                    format!("{} r={res} k={k}", fmt_log(&log))
+                }
             }
             "call" if toks.len() == 2 && cur.is_some() && num(&toks[1]).is_some() => {
                 let req = num(&toks[1]).unwrap();
                 let svc = cur.as_ref().unwrap();
                 let polls = RefCell::new(vec![]);
-                let w0 = w.get();
                 let r = catch(|| {
                     let mut fut = svc.call(req);
                     drive(fut.as_mut(), &w, &polls)
                 });
                 let log = take_log();
                 let polls = polls.into_inner();
+                let k: u32 = polls.iter().map(|p: &PollRec| wakes_of(p.w)).sum();
                 let res = match &r {
-                    Ok(Some(Ok(v))) => format!("ok:{v}"),
-                    Ok(Some(Err(e))) => format!("err:{e}"),
-                    Ok(None) => "stuck".to_string(),
+                    Ok(Drv::Done(Ok(v))) => format!("ok:{v}"),
+                    Ok(Drv::Done(Err(e))) => format!("err:{e}"),
+                    Ok(Drv::Fuel) => "stuck".to_string(),
+                    Ok(Drv::Stalled) => "stalled".to_string(),
                     Err(_) => "panic".to_string(),
                 };
                 // ---- T3
                 if let Some(ast) = cur_ast.as_ref() {
+                    let _ = cov.call(ast, req);
                     let mut want_log = vec![];
                     let want = ref_call(ast, req, &mut want_log);
-                    if r != Ok(Some(want)) {
+                    if !matches!(&r, Ok(Drv::Done(x)) if *x == want) {
                         rep.t3("C11", &format!("composition-result: call({req}) of {ast} resolved to {res}, the reference composition is {want:?}"));
                     }
                     let got_log: Vec<Ev> = log
@@ -1180,6 +1519,9 @@ fn run(a: &Args) {
                     if REPOLL.with(|r| r.get()) {
                         rep.t3("C12", &format!("poll-after-done: call({req}) of {ast}: an inner future was polled again after it completed"));
                     }
+                    if r.is_err() && !REPOLL.with(|r| r.get()) {
+                        rep.t3("C12", &format!("future-panicked: call({req}) of {ast}: the combinator future panicked after {} (a future that answered Pending must be pollable again)", fmt_log(&log)));
+                    }
                     let mut calls: HashMap<u32, u32> = HashMap::new();
                     let mut lids = vec![];
                     svc_leaf_ids(ast, &mut lids);
@@ -1193,10 +1535,13 @@ fn run(a: &Args) {
                     if calls.values().any(|c| *c > 1) {
                         rep.t3("C12", &format!("stage-twice: call({req}) of {ast}: a stage was invoked more than once"));
                     }
-                    check_polls(&mut rep, &format!("call({req}) of {ast}"), &log, &polls);
+                    check_polls(&mut rep, &format!("call({req}) of {ast}"), &log, &polls, r.is_err());
                 }
-                let _ = w0;
-                format!("{} r={res}", fmt_log(&log))
+                if r.is_err() {
+                    format!("{} r={res}", fmt_log(&log))
+                } else {
+                    format!("{} r={res} k={k}", fmt_log(&log))
+                }
             }
             "fac" => {
                 let mut p = P { t: &toks, i: 1 };
@@ -1224,22 +1569,26 @@ fn run(a: &Args) {
                         });
                         let log = take_log();
                         let polls = polls.into_inner();
+                        let k: u32 = polls.iter().map(|p: &PollRec| wakes_of(p.w)).sum();
                         let res = match &r {
-                            Ok(Some(Ok(_))) => "ok".to_string(),
-                            Ok(Some(Err(e))) => format!("err:{e}"),
-                            Ok(None) => "stuck".to_string(),
+                            Ok(Drv::Done(Ok(_))) => "ok".to_string(),
+                            Ok(Drv::Done(Err(e))) => format!("err:{e}"),
+                            Ok(Drv::Fuel) => "stuck".to_string(),
+                            Ok(Drv::Stalled) => "stalled".to_string(),
                             Err(_) => "panic".to_string(),
                         };
                         // ---- T3
-                        let mut news = vec![];
-                        let want = ref_fac(&f, cfg, &mut news);
+                        let what = format!("new_service({cfg}) of {f}");
+                        let mut tr = FacTrace::default();
+                        let want = ref_fac(&f, cfg, &mut tr);
+                        cov.fac(&f, cfg);
                         let agrees = match (&r, &want.res) {
-                            (Ok(Some(Ok(_))), Ok(_)) => true,
-                            (Ok(Some(Err(e))), Err(we)) => e == we,
+                            (Ok(Drv::Done(Ok(_))), Ok(_)) => true,
+                            (Ok(Drv::Done(Err(e))), Err(we)) => e == we,
                             _ => false,
                         };
                         if !agrees {
-                            rep.t3("C11", &format!("factory-result: new_service({cfg}) of {f} resolved to {res}, the reference is {:?}", want.res.as_ref().map(|s| s.to_string())));
+                            rep.t3("C11", &format!("factory-result: {what} resolved to {res}, the reference is {:?}", want.res.as_ref().map(|s| s.to_string())));
                         }
                         let got_news: Vec<(u32, u32)> = log.iter().filter_map(|e| if let Ev::New(i, c) = e { Some((*i, *c)) } else { None }).collect();
                         // which factories are asked, and with what — not in which order
@@ -1248,23 +1597,45 @@ fn run(a: &Args) {
                             v.sort_unstable();
                             v
                         };
-                        if sorted(&got_news) != sorted(&news) {
-                            rep.t3("C11", &format!("factory-builds-once: new_service({cfg}) of {f}: inner factories were asked {got_news:?}, expected each once with its config: {news:?}"));
+                        if sorted(&got_news) != sorted(&tr.news) {
+                            rep.t3("C11", &format!("factory-builds-once: {what}: inner factories were asked {got_news:?}, expected each once with its config: {:?}", tr.news));
                         }
                         if agrees && polls.len() != want.pend as usize + 1 {
-                            rep.t3("C11", &format!("factory-first-error-poll: new_service({cfg}) of {f} resolved at poll {} but the first decisive inner result is at poll {}", polls.len(), want.pend + 1));
+                            rep.t3("C11", &format!("factory-first-error-poll: {what} resolved at poll {} but the first decisive inner result is at poll {}", polls.len(), want.pend + 1));
+                        }
+                        // every construction step (factory asked, init future completed, transform
+                        // created, closure / mapper applied) happens at most once, and exactly once
+                        // when nothing can cut the run short
+                        if r.is_ok() {
+                            let got = decisive(&log);
+                            let extra = ms_minus(&got, &tr.evs);
+                            if !extra.is_empty() {
+                                rep.t3("C11", &format!("factory-trace: {what}: construction steps {} are not part of the reference composition {}", fmt_log(&extra), fmt_log(&tr.evs)));
+                            }
+                            let missing = ms_minus(&tr.evs, &got);
+                            if (want.res.is_ok() || tr.joins == 0) && !missing.is_empty() && extra.is_empty() {
+                                rep.t3("C11", &format!("factory-trace: {what}: construction steps {} of the reference composition did not happen (log {})", fmt_log(&missing), fmt_log(&got)));
+                            }
                         }
                         if REPOLL.with(|r| r.get()) {
-                            rep.t3("C12", &format!("poll-after-done: new_service({cfg}) of {f}: an inner init future was polled again after it completed"));
+                            rep.t3("C12", &format!("poll-after-done: {what}: an inner init future was polled again after it completed"));
                         }
-                        check_polls(&mut rep, &format!("new_service({cfg}) of {f}"), &log, &polls);
-                        if let (Ok(Some(Ok(svc))), Ok(ast)) = (r, want.res) {
+                        if r.is_err() && !REPOLL.with(|r| r.get()) {
+                            rep.t3("C12", &format!("future-panicked: {what}: the factory future panicked after {}", fmt_log(&log)));
+                        }
+                        check_polls(&mut rep, &what, &log, &polls, r.is_err());
+                        check_fac_readiness(&mut rep, &what, &log, &res, matches!(&r, Ok(Drv::Done(Err(_)))), &tr);
+                        if let (Ok(Drv::Done(Ok(svc))), Ok(ast)) = (r, want.res) {
                             cur = Some(svc);
                             let mut ast = ast;
                             sync_ast(&mut ast);
                             cur_ast = Some(ast);
+                            format!("{} r={res} k={k}", fmt_log(&log))
+                        } else if res == "panic" {
+                            format!("{} r={res}", fmt_log(&log))
+                        } else {
+                            format!("{} r={res} k={k}", fmt_log(&log))
                         }
-                        format!("{} r={res}", fmt_log(&log))
                     }
                 }
             }
@@ -1272,7 +1643,282 @@ fn run(a: &Args) {
         };
         rep.obs(&line, &real);
     }
+    cov.report(&mut rep);
     rep.finish();
+}
+
+// ------------------------------------------------------------------------------------------------
+// state coverage: which state of which hand-written Future / poll_ready was reached after how many
+// Pendings and with which inner outcome (derived from the op and the reference, reported as #NOTE)
+// ------------------------------------------------------------------------------------------------
+
+#[derive(Default)]
+struct Coverage {
+    keys: std::collections::BTreeMap<String, u64>,
+}
+fn pb(p: u32) -> u32 {
+    p.min(2)
+}
+fn step_str(r: Option<Result<(), u32>>) -> &'static str {
+    match r {
+        None => "pending",
+        Some(Ok(())) => "ok",
+        Some(Err(_)) => "err",
+    }
+}
+impl Coverage {
+    fn hit(&mut self, k: String) {
+        *self.keys.entry(k).or_default() += 1;
+    }
+    /// (Pending polls, result) of `call(req)`; records the states passed through
+    fn call(&mut self, s: &S, req: u32) -> (u32, Result<u32, u32>) {
+        match s {
+            S::Leaf { id, cp, cok, .. } => (*cp, leaf_res(*id, *cok, req)),
+            S::Fn { id, cok } => {
+                let r = leaf_res(*id, *cok, req);
+                self.hit(format!("fn_service.call:{}", oe(r.is_ok())));
+                (0, r)
+            }
+            S::Map(s, f) => {
+                let (p, r) = self.call(s, req);
+                self.hit(format!("MapFuture:pend{}:{}", pb(p), oe(r.is_ok())));
+                (p, r.map(|v| mapfn(*f, v)))
+            }
+            S::MapErr(s, f) => {
+                let (p, r) = self.call(s, req);
+                self.hit(format!("MapErrFuture:pend{}:{}", pb(p), oe(r.is_ok())));
+                (p, r.map_err(|e| mapfn(*f, e)))
+            }
+            S::Then(a, b) => {
+                let (pa, ra) = self.call(a, req);
+                self.hit(format!("AndThenServiceResponse.A:pend{}:{}", pb(pa), oe(ra.is_ok())));
+                match ra {
+                    Err(e) => (pa, Err(e)),
+                    Ok(v) => {
+                        let (p2, rb) = self.call(b, v);
+                        self.hit(format!("AndThenServiceResponse.B:pend{}:{}", pb(p2), oe(rb.is_ok())));
+                        (pa + p2, rb)
+                    }
+                }
+            }
+            S::Apply(s, kind, k) => {
+                let (p, r) = match kind {
+                    AK::Pre => self.call(s, mapfn(*k, req)),
+                    AK::Short => (0, Err(mapfn(*k, req))),
+                    AK::Post => {
+                        let (p, r) = self.call(s, req);
+                        (p, r.map(|v| mapfn(*k, v)))
+                    }
+                };
+                self.hit(format!("Apply.call({kind}):pend{}:{}", pb(p), oe(r.is_ok())));
+                (p, r)
+            }
+            S::Wrap(w, s) => {
+                let (p, r) = self.call(s, req);
+                self.hit(format!("wrapper({w}).call:pend{}:{}", pb(p), oe(r.is_ok())));
+                (p, r)
+            }
+            S::Mw(s, t) => {
+                let (p, r) = self.call(s, req);
+                (p, r.map(|v| mapfn(*t, v)))
+            }
+        }
+    }
+    fn ready(&mut self, s: &S) -> Option<Result<(), u32>> {
+        match s {
+            S::Leaf { .. } | S::Fn { .. } => ref_ready(s),
+            S::Then(a, b) => {
+                let ra = self.ready(a);
+                let rb = self.ready(b);
+                self.hit(format!("AndThenService.poll_ready:a={},b={}", step_str(ra), step_str(rb)));
+                ref_ready(s)
+            }
+            S::Map(x, _) => {
+                let r = self.ready(x);
+                self.hit(format!("Map.poll_ready:{}", step_str(r)));
+                r
+            }
+            S::MapErr(x, _) => {
+                let r = self.ready(x);
+                self.hit(format!("MapErr.poll_ready:{}", step_str(r)));
+                ref_ready(s)
+            }
+            S::Apply(x, _, _) => {
+                let r = self.ready(x);
+                self.hit(format!("Apply.poll_ready:{}", step_str(r)));
+                r
+            }
+            S::Wrap(w, x) => {
+                let r = self.ready(x);
+                self.hit(format!("wrapper({w}).poll_ready:{}", step_str(r)));
+                r
+            }
+            S::Mw(x, _) => self.ready(x),
+        }
+    }
+    fn fac(&mut self, f: &F, cfg: u32) {
+        let den = |f: &F, cfg: u32| ref_fac(f, cfg, &mut FacTrace::default());
+        let me = den(f, cfg);
+        let tag = |r: &FacRef| format!("pend{}:{}", pb(r.pend), oe(r.res.is_ok()));
+        match f {
+            F::Leaf { use_cfg, .. } => self.hit(format!("{}:{}", if *use_cfg { "fn_factory_with_config" } else { "fn_factory" }, tag(&me))),
+            F::Fn { .. } => self.hit("fn_service.new_service(Ready)".into()),
+            F::Map(a, _) => {
+                self.hit(format!("MapServiceFuture:{}", tag(&den(a, cfg))));
+                self.fac(a, cfg)
+            }
+            F::MapErr(a, _) => {
+                self.hit(format!("MapErrServiceFuture:{}", tag(&den(a, cfg))));
+                self.fac(a, cfg)
+            }
+            F::MapInitErr(a, _) => {
+                self.hit(format!("MapInitErrFuture:{}", tag(&den(a, cfg))));
+                self.fac(a, cfg)
+            }
+            F::Apply(a, _, _) => {
+                self.hit(format!("ApplyServiceFactoryResponse:{}", tag(&den(a, cfg))));
+                self.fac(a, cfg)
+            }
+            F::Boxed(a) => {
+                self.hit(format!("boxed::factory:{}", tag(&den(a, cfg))));
+                self.fac(a, cfg)
+            }
+            F::Rc(a) => {
+                self.hit(format!("Rc<factory>:{}", tag(&den(a, cfg))));
+                self.fac(a, cfg)
+            }
+            F::Arc(a) => {
+                self.hit(format!("Arc<factory>:{}", tag(&den(a, cfg))));
+                self.fac(a, cfg)
+            }
+            F::MapConfig(a, m) => {
+                self.hit(format!("map_config:{}", tag(&den(a, mapfn(*m, cfg)))));
+                self.fac(a, mapfn(*m, cfg))
+            }
+            F::UnitConfig(a) => {
+                self.hit(format!("unit_config:{}", tag(&den(a, 0))));
+                self.fac(a, 0)
+            }
+            F::Then(a, b) => {
+                let (ra, rb) = (den(a, cfg), den(b, cfg));
+                self.hit(format!("AndThenServiceFactoryResponse:a={}@{},b={}@{}", oe(ra.res.is_ok()), pb(ra.pend), oe(rb.res.is_ok()), pb(rb.pend)));
+                self.fac(a, cfg);
+                self.fac(b, cfg)
+            }
+            F::Transform { tp, tok, pk, mie, a, .. } => {
+                let ra = den(a, cfg);
+                self.hit(format!("ApplyTransformFuture.A:{}", tag(&ra)));
+                if ra.res.is_ok() {
+                    self.hit(format!("ApplyTransformFuture.B:pend{}:{}", pb(*tp), oe(*tok)));
+                    self.hit(format!("Transform for {pk}"));
+                    if mie.is_some() {
+                        self.hit(format!("TransformMapInitErrFuture:pend{}:{}", pb(*tp), oe(*tok)));
+                    }
+                }
+                self.fac(a, cfg)
+            }
+            F::ApplyCfg { ip, iok, .. } => self.hit(format!("apply_cfg:pend{}:{}", pb(*ip), oe(*iok))),
+            F::ApplyCfgFac { a, ip, iok, .. } => {
+                let ra = den(a, 0);
+                self.hit(format!("ApplyConfigServiceFactoryResponse.A:{}", tag(&ra)));
+                if let Ok(mut s) = ra.res {
+                    let (t, v) = ref_ready_rounds(&mut s, &mut vec![]);
+                    self.hit(format!("ApplyConfigServiceFactoryResponse.B:pend{}:{}", pb(t), oe(v.is_ok())));
+                    if v.is_ok() {
+                        self.hit(format!("ApplyConfigServiceFactoryResponse.C:pend{}:{}", pb(*ip), oe(*iok)));
+                    }
+                }
+                self.fac(a, 0)
+            }
+        }
+    }
+    /// every (state, Pending^k before, inner outcome) combination the generators must reach
+    fn required() -> Vec<String> {
+        let mut v = vec![];
+        let po = |name: &str, v: &mut Vec<String>| {
+            for p in 0..3 {
+                for o in ["ok", "err"] {
+                    v.push(format!("{name}:pend{p}:{o}"));
+                }
+            }
+        };
+        for n in [
+            "MapFuture",
+            "MapErrFuture",
+            "AndThenServiceResponse.A",
+            "AndThenServiceResponse.B",
+            "Apply.call(pre)",
+            "Apply.call(post)",
+            "fn_factory_with_config",
+            "fn_factory",
+            "MapServiceFuture",
+            "MapErrServiceFuture",
+            "MapInitErrFuture",
+            "ApplyServiceFactoryResponse",
+            "boxed::factory",
+            "Rc<factory>",
+            "Arc<factory>",
+            "map_config",
+            "unit_config",
+            "ApplyTransformFuture.A",
+            "ApplyTransformFuture.B",
+            "TransformMapInitErrFuture",
+            "apply_cfg",
+            "ApplyConfigServiceFactoryResponse.A",
+            "ApplyConfigServiceFactoryResponse.B",
+            "ApplyConfigServiceFactoryResponse.C",
+        ] {
+            po(n, &mut v);
+        }
+        for w in WKS {
+            po(&format!("wrapper({w}).call"), &mut v);
+            for st in ["pending", "ok", "err"] {
+                v.push(format!("wrapper({w}).poll_ready:{st}"));
+            }
+        }
+        v.push("Apply.call(short):pend0:err".into());
+        for st in ["pending", "ok", "err"] {
+            for n in ["Map", "MapErr", "Apply"] {
+                v.push(format!("{n}.poll_ready:{st}"));
+            }
+            for st2 in ["pending", "ok", "err"] {
+                v.push(format!("AndThenService.poll_ready:a={st},b={st2}"));
+            }
+        }
+        for oa in ["ok", "err"] {
+            for ob in ["ok", "err"] {
+                for pa in 0..3 {
+                    for pb in 0..3 {
+                        v.push(format!("AndThenServiceFactoryResponse:a={oa}@{pa},b={ob}@{pb}"));
+                    }
+                }
+            }
+        }
+        for pk in [PK::Plain, PK::Rc, PK::Arc] {
+            v.push(format!("Transform for {pk}"));
+        }
+        v.push("fn_service.call:ok".into());
+        v.push("fn_service.call:err".into());
+        v.push("fn_service.new_service(Ready)".into());
+        v
+    }
+    fn report(&self, rep: &mut Report) {
+        let req = Self::required();
+        let missing: Vec<&String> = req.iter().filter(|k| !self.keys.contains_key(*k)).collect();
+        let total: u64 = self.keys.values().sum();
+        rep.note(&format!(
+            "state-coverage: {}/{} required (future state x Pending^k before x inner outcome) combinations reached, {} distinct keys, {} visits{}",
+            req.len() - missing.len(),
+            req.len(),
+            self.keys.len(),
+            total,
+            if missing.is_empty() {
+                String::new()
+            } else {
+                format!("; not reached in this input: {}{}", missing.iter().take(8).map(|s| s.as_str()).collect::<Vec<_>>().join(" "), if missing.len() > 8 { " …" } else { "" })
+            }
+        ));
+    }
 }
 
 // ------------------------------------------------------------------------------------------------
@@ -1285,7 +1931,8 @@ struct G<'a> {
     next_fleaf: u32,
     maxk: usize,
 }
-const WKS: [WK; 6] = [WK::Boxed, WK::RcBoxed, WK::Rc, WK::RefCell, WK::Ref, WK::Box];
+const WKS: [WK; 7] = [WK::Boxed, WK::RcBoxed, WK::Rc, WK::RefCell, WK::Ref, WK::Box, WK::RefMut];
+const PKS: [PK; 3] = [PK::Plain, PK::Rc, PK::Arc];
 const AKS: [AK; 3] = [AK::Pre, AK::Short, AK::Post];
 
 impl<'a> G<'a> {
@@ -1352,7 +1999,7 @@ impl<'a> G<'a> {
         if depth == 0 {
             return self.fatom();
         }
-        let k = self.rng.below(18);
+        let k = self.rng.below(19);
         let sub = |g: &mut Self| Box::new(g.fac(depth - 1));
         match k {
             0 => self.fatom(),
@@ -1364,8 +2011,9 @@ impl<'a> G<'a> {
             9 | 10 => F::Transform {
                 t: 30 + self.rng.below(10) as u32,
                 tp: self.rng.below(self.maxk + 1) as u32,
-                tok: self.rng.chance(4, 5),
-                rc: self.rng.chance(1, 2),
+                tok: self.rng.chance(3, 4),
+                pk: *self.rng.pick(&PKS),
+                mie: if self.rng.chance(1, 3) { Some(20 + self.rng.below(10) as u32) } else { None },
                 a: sub(self),
             },
             11 | 12 => F::ApplyCfgFac {
@@ -1378,6 +2026,7 @@ impl<'a> G<'a> {
             14 => F::UnitConfig(sub(self)),
             15 => F::Boxed(sub(self)),
             16 => F::Rc(sub(self)),
+            17 => F::Arc(sub(self)),
             _ => F::Then(Box::new(self.fatom()), sub(self)),
         }
     }
@@ -1432,13 +2081,15 @@ fn fac_shapes(depth: usize) -> Vec<F> {
         for k in AKS {
             out.push(F::Apply(b(), k, 41));
         }
-        out.push(F::Transform { t: 31, tp: 0, tok: true, rc: false, a: b() });
-        out.push(F::Transform { t: 32, tp: 0, tok: true, rc: true, a: b() });
+        out.push(F::Transform { t: 31, tp: 0, tok: true, pk: PK::Plain, mie: None, a: b() });
+        out.push(F::Transform { t: 32, tp: 0, tok: true, pk: PK::Rc, mie: None, a: b() });
+        out.push(F::Transform { t: 33, tp: 0, tok: true, pk: PK::Arc, mie: Some(25), a: b() });
         out.push(F::ApplyCfgFac { a: b(), f: 52, ip: 0, iok: true });
         out.push(F::MapConfig(b(), 24));
         out.push(F::UnitConfig(b()));
         out.push(F::Boxed(b()));
         out.push(F::Rc(b()));
+        out.push(F::Arc(b()));
     }
     for x in &sub {
         for y in &sub {
@@ -1523,7 +2174,7 @@ fn rescript_fac(f: &mut F, rng: &mut Rng, maxk: usize, next: &mut u32, nextf: &m
             rescript_fac(a, rng, maxk, next, nextf);
         }
         F::Map(a, _) | F::MapErr(a, _) | F::MapInitErr(a, _) | F::Apply(a, _, _) | F::MapConfig(a, _) => rescript_fac(a, rng, maxk, next, nextf),
-        F::UnitConfig(a) | F::Boxed(a) | F::Rc(a) => rescript_fac(a, rng, maxk, next, nextf),
+        F::UnitConfig(a) | F::Boxed(a) | F::Rc(a) | F::Arc(a) => rescript_fac(a, rng, maxk, next, nextf),
         F::Then(a, b) => {
             rescript_fac(a, rng, maxk, next, nextf);
             rescript_fac(b, rng, maxk, next, nextf)
@@ -1540,6 +2191,190 @@ fn emit_ops(w: &mut dyn Write, rng: &mut Rng, n: usize, ready_bias: usize) {
         } else {
             writeln!(w, "call {}", rng.below(10)).unwrap();
             called = true;
+        }
+    }
+}
+
+/// Visit every scripted parameter of a factory shape in a fixed order.  `pick(n)` chooses a value
+/// below `n` for the next parameter group; service leaves are renumbered 0.., leaf factories 60..
+/// Parameter groups: leaf factory (ip, iok); transform (tp, tok); apply_cfg* closure (ip, iok);
+/// service leaf (rp, rok, call script ∈ {immediately ok, one Pending then err}).
+fn fac_params(f: &mut F, kk: usize, pick: &mut dyn FnMut(usize) -> usize, next: &mut u32, nextf: &mut u32) {
+    fn svc_params(s: &mut S, kk: usize, pick: &mut dyn FnMut(usize) -> usize, next: &mut u32) {
+        svc_slots(s, &mut |x| {
+            if let S::Leaf { id, cp, cok, rp, rok } = x {
+                *id = *next;
+                *next += 1;
+                let d = pick(kk * 2 * 2);
+                *rp = (d % kk) as u32;
+                *rok = (d / kk) % 2 == 0;
+                let late_err = d / (2 * kk) == 1;
+                *cp = late_err as u32;
+                *cok = !late_err;
+            }
+        });
+    }
+    match f {
+        F::Leaf { id, ip, iok, s, .. } => {
+            *id = *nextf;
+            *nextf += 1;
+            let d = pick(kk * 2);
+            *ip = (d % kk) as u32;
+            *iok = d / kk == 0;
+            svc_params(s, kk, pick, next);
+        }
+        F::Fn { .. } => {}
+        F::ApplyCfg { s, ip, iok, .. } => {
+            let d = pick(kk * 2);
+            *ip = (d % kk) as u32;
+            *iok = d / kk == 0;
+            svc_params(s, kk, pick, next);
+        }
+        F::Transform { tp, tok, a, .. } => {
+            let d = pick(kk * 2);
+            *tp = (d % kk) as u32;
+            *tok = d / kk == 0;
+            fac_params(a, kk, pick, next, nextf);
+        }
+        F::ApplyCfgFac { a, ip, iok, .. } => {
+            let d = pick(kk * 2);
+            *ip = (d % kk) as u32;
+            *iok = d / kk == 0;
+            fac_params(a, kk, pick, next, nextf);
+        }
+        F::Map(a, _) | F::MapErr(a, _) | F::MapInitErr(a, _) | F::Apply(a, _, _) | F::MapConfig(a, _) => fac_params(a, kk, pick, next, nextf),
+        F::UnitConfig(a) | F::Boxed(a) | F::Rc(a) | F::Arc(a) => fac_params(a, kk, pick, next, nextf),
+        F::Then(a, b) => {
+            fac_params(a, kk, pick, next, nextf);
+            fac_params(b, kk, pick, next, nextf)
+        }
+    }
+}
+/// number of scripts of a factory shape
+fn fac_script_count(f: &F, kk: usize) -> usize {
+    let mut total = 1usize;
+    let mut g = f.clone();
+    fac_params(&mut g, kk, &mut |n| {
+        total = total.saturating_mul(n);
+        0
+    }, &mut 0, &mut 60);
+    total
+}
+/// the `code`-th script of a factory shape (mixed radix)
+fn fac_script(f: &F, kk: usize, mut code: usize) -> F {
+    let mut g = f.clone();
+    fac_params(&mut g, kk, &mut |n| {
+        let d = code % n;
+        code /= n;
+        d
+    }, &mut 0, &mut 60);
+    g
+}
+
+fn emit_fac_case(w: &mut dyn Write, name: &str, f: &F, cfg: u32) {
+    writeln!(w, "case {name}").unwrap();
+    writeln!(w, "fac {f} {cfg}").unwrap();
+    if ref_fac(f, cfg, &mut FacTrace::default()).res.is_ok() {
+        writeln!(w, "ready\nready\ncall 1\nready\ncall 2").unwrap();
+    } else {
+        writeln!(w, "ready").unwrap(); // no service: rejected on both sides
+    }
+}
+
+fn lf(id: u32, cp: u32, cok: bool, rp: u32, rok: bool) -> S {
+    S::Leaf { id, cp, cok, rp, rok }
+}
+fn fl(id: u32, ip: u32, iok: bool, use_cfg: bool, s: S) -> F {
+    F::Leaf { id, ip, iok, use_cfg, s }
+}
+fn bx<T>(x: T) -> Box<T> {
+    Box::new(x)
+}
+
+/// Catalogue: for every state of every hand-written future / poll_ready of the crate, the smallest
+/// trees that reach it after Pending^k (k = 0, 1, 2) with an Ok and with an Err — at readiness, at
+/// construction and at call.  Emitted first.
+fn gen_catalogue(w: &mut dyn Write) {
+    let mut n = 0;
+    let mut svc_case = |w: &mut dyn Write, tag: &str, s: &S, ops: &str| {
+        n += 1;
+        writeln!(w, "case cat-{tag}-{n}\nsvc {s}\n{ops}").unwrap();
+    };
+    let oks = [true, false];
+    for k in 0..3u32 {
+        for o in oks {
+            // AndThenServiceResponse A / B; AndThenService::poll_ready with either half deciding
+            svc_case(w, "andthen-A", &S::Then(bx(lf(0, k, o, 0, true)), bx(lf(1, 1, true, 0, true))), "call 1\ncall 2");
+            svc_case(w, "andthen-B", &S::Then(bx(lf(0, 1, true, 0, true)), bx(lf(1, k, o, 0, true))), "call 1\ncall 2");
+            svc_case(w, "andthen-AB", &S::Then(bx(lf(0, k, true, 0, true)), bx(lf(1, k, o, 0, true))), "call 1");
+            svc_case(w, "andthen-ready-a", &S::Then(bx(lf(0, 0, true, k, o)), bx(lf(1, 0, true, 1, true))), "ready\nready\nready\nready\ncall 1");
+            svc_case(w, "andthen-ready-b", &S::Then(bx(lf(0, 0, true, 1, true)), bx(lf(1, 0, true, k, o))), "ready\nready\nready\nready\ncall 1");
+            svc_case(w, "andthen-ready-ab", &S::Then(bx(lf(0, 0, true, k, !o)), bx(lf(1, 0, true, 2 - k, o))), "ready\nready\nready\nready");
+            svc_case(w, "andthen-fn", &S::Then(bx(lf(0, k, o, k, true)), bx(S::Fn { id: 11, cok: o })), "ready\ncall 1");
+            svc_case(w, "fn-andthen", &S::Then(bx(S::Fn { id: 11, cok: o }), bx(lf(0, k, !o, k, o))), "ready\ncall 1\nready\nready");
+            let leaf = lf(0, k, o, k, !o);
+            let leaf2 = lf(0, k, !o, k, o);
+            for l in [&leaf, &leaf2] {
+                let ops = "ready\nready\nready\ncall 1\ncall 2";
+                svc_case(w, "map", &S::Map(bx(l.clone()), 21), ops);
+                svc_case(w, "maperr", &S::MapErr(bx(l.clone()), 22), ops);
+                for ak in AKS {
+                    svc_case(w, "apply", &S::Apply(bx(l.clone()), ak, 41), ops);
+                }
+                for wk in WKS {
+                    svc_case(w, "wrap", &S::Wrap(wk, bx(l.clone())), ops);
+                }
+                svc_case(w, "mw", &S::Mw(bx(l.clone()), 31), ops);
+                svc_case(w, "maperr-maperr", &S::MapErr(bx(S::MapErr(bx(l.clone()), 22)), 23), ops);
+            }
+        }
+    }
+    let mut fac_case = |w: &mut dyn Write, tag: &str, f: &F, cfg: u32| {
+        n += 1;
+        emit_fac_case(w, &format!("cat-{tag}-{n}"), f, cfg);
+    };
+    for k in 0..3u32 {
+        for o in oks {
+            // apply_cfg_factory: A (inner factory), B (readiness gate), C (configure future)
+            for k2 in 0..3u32 {
+                for o2 in oks {
+                    let inner = fl(60, k2, o2, true, lf(0, 1, true, k, o));
+                    fac_case(w, "applycfgfac-B", &F::ApplyCfgFac { a: bx(inner.clone()), f: 52, ip: 0, iok: true }, 5);
+                    fac_case(w, "applycfgfac-C", &F::ApplyCfgFac { a: bx(fl(60, k2, true, false, lf(0, 0, true, k2, true))), f: 52, ip: k, iok: o }, 5);
+                    fac_case(w, "applycfgfac-BC", &F::ApplyCfgFac { a: bx(fl(60, 0, true, true, lf(0, 0, !o2, k, o))), f: 52, ip: k2, iok: o2 }, 5);
+                    // apply(Transform): A (inner factory), B (transform future), map_init_err on the transform
+                    for (i, pk) in PKS.iter().enumerate() {
+                        let t = F::Transform { t: 31, tp: k, tok: o, pk: *pk, mie: if (k2 as usize + i) % 2 == 0 { None } else { Some(23) }, a: bx(fl(60, k2, o2, i != 1, lf(0, k, true, k2, true))) };
+                        fac_case(w, "transform", &t, 7);
+                    }
+                    fac_case(w, "transformerr", &F::Transform { t: 31, tp: k, tok: o, pk: PK::Plain, mie: Some(23), a: bx(fl(60, k2, o2, true, lf(0, 0, true, 0, true))) }, 7);
+                    // and_then of factories: every order of completion / failure of the two halves
+                    fac_case(w, "fthen", &F::Then(bx(fl(60, k, o, true, lf(0, 0, true, 1, true))), bx(fl(61, k2, o2, k % 2 == 0, lf(1, 1, true, 0, true)))), 3);
+                }
+            }
+            // gate over a two-leaf service: conjunction, the first error, Pending halves
+            fac_case(w, "applycfgfac-then", &F::ApplyCfgFac { a: bx(fl(60, 1, true, true, S::Then(bx(lf(0, 0, true, k, o)), bx(lf(1, 0, true, 2 - k, !o))))), f: 52, ip: 1, iok: true }, 5);
+            fac_case(w, "applycfgfac-maperr", &F::ApplyCfgFac { a: bx(F::MapErr(bx(fl(60, 0, true, true, S::MapErr(bx(lf(0, 0, true, k, o)), 22))), 24)), f: 52, ip: 0, iok: true }, 5);
+            fac_case(w, "applycfgfac-nested", &F::ApplyCfgFac { a: bx(F::ApplyCfgFac { a: bx(fl(60, 0, true, true, lf(0, 0, true, k, o))), f: 53, ip: k, iok: true }), f: 52, ip: 0, iok: o }, 5);
+            fac_case(w, "applycfg", &F::ApplyCfg { s: lf(0, k, o, k, true), f: 51, ip: k, iok: o }, 4);
+            fac_case(w, "applycfg", &F::ApplyCfg { s: lf(0, 0, true, k, o), f: 51, ip: 2 - k, iok: !o }, 4);
+            // the single-state factory futures and the transparent factory adapters
+            for use_cfg in [true, false] {
+                let inner = || bx(fl(60, k, o, use_cfg, lf(0, k, !o, k, true)));
+                fac_case(w, "fleaf", &inner(), 6);
+                fac_case(w, "fmap", &F::Map(inner(), 21), 6);
+                fac_case(w, "fmaperr", &F::MapErr(inner(), 22), 6);
+                fac_case(w, "fmapiniterr", &F::MapInitErr(inner(), 23), 6);
+                for ak in AKS {
+                    fac_case(w, "fapply", &F::Apply(inner(), ak, 41), 6);
+                }
+                fac_case(w, "mapconfig", &F::MapConfig(inner(), 24), 6);
+                fac_case(w, "unitconfig", &F::UnitConfig(inner()), 6);
+                fac_case(w, "fboxed", &F::Boxed(inner()), 6);
+                fac_case(w, "frc", &F::Rc(inner()), 6);
+                fac_case(w, "farc", &F::Arc(inner()), 6);
+                fac_case(w, "fthen-ffn", &F::Then(inner(), bx(F::Fn { id: 11, cok: o })), 6);
+            }
         }
     }
 }
@@ -1561,8 +2396,13 @@ fn gen(a: &Args) {
         "svc (leaf 1234567 0 ok 0 ok)",
         "svc (leaf 0 0 ok 0 ok) x",
         "svc (frob (leaf 0 0 ok 0 ok))",
+        "svc (refmut)",
         "fac (fleaf 60 0 ok cfg (leaf 0 0 ok 0 ok))",
         "fac (fthen (fleaf 60 0 ok cfg (leaf 0 0 ok 0 ok)) (fleaf 61 0 ok cfg (leaf 0 0 ok 0 ok))) 1",
+        "fac (transform 31 0 ok weird (ffn 11 ok)) 1",
+        "fac (transformerr 31 0 ok plain (ffn 11 ok)) 1",
+        "fac (transform 31 0 ok arc 23 (ffn 11 ok)) 1",
+        "fac (farc) 1",
         "svc (leaf 0 1 ok 1 ok)",
         "ready x",
         "call",
@@ -1575,10 +2415,27 @@ fn gen(a: &Args) {
         writeln!(w, "{l}").unwrap();
     }
 
-    // (1) every combinator shape up to depth 2; for shapes with at most two scripted leaves every
-    //     script with k <= 1 (quick) / k <= 2 (thorough), otherwise random draws
-    let shapes = svc_shapes(2);
+    // (1) the catalogue of states x Pending^k x outcome
+    gen_catalogue(&mut w);
+
+    // (2) every factory shape up to depth 1 with EVERY script (k <= 1 quick / k <= 2 thorough) while
+    //     the shape has at most `cap` scripts, otherwise random draws
     let kk = if thorough { 3 } else { 2 };
+    let cap = if thorough { 6000 } else { 1100 };
+    let mut n = 0;
+    for sh in &fac_shapes(1) {
+        let total = fac_script_count(sh, kk);
+        let full = total <= cap;
+        for d in 0..(if full { total } else { cap / 4 }) {
+            let f = fac_script(sh, kk, if full { d } else { rng.below(total) });
+            n += 1;
+            emit_fac_case(&mut w, &format!("fx-{n}"), &f, 1 + (d % 7) as u32);
+        }
+    }
+
+    // (3) every service combinator shape up to depth 2; for shapes with at most two scripted leaves
+    //     every script with k <= 1 (quick) / k <= 2 (thorough), otherwise random draws
+    let shapes = svc_shapes(2);
     let draws = if thorough { 6 } else { 2 };
     let mut n = 0;
     for sh in &shapes {
@@ -1605,20 +2462,20 @@ fn gen(a: &Args) {
         }
     }
 
-    // (2) every factory shape up to depth 1 (quick) / 2 (thorough), random scripts
-    let fshapes = fac_shapes(if thorough { 2 } else { 1 });
-    let fdraws = if thorough { 2 } else { 3 };
+    // (4) every factory shape of depth 2, random scripts
+    let fshapes = fac_shapes(2);
+    let fdraws = if thorough { 3 } else { 1 };
     let mut n = 0;
     for sh in &fshapes {
         for _ in 0..fdraws {
             let mut f = sh.clone();
             let (mut nx, mut nf) = (0, 60);
-            rescript_fac(&mut f, &mut rng, if thorough { 2 } else { 1 }, &mut nx, &mut nf);
+            rescript_fac(&mut f, &mut rng, 2, &mut nx, &mut nf);
             n += 1;
             let cfg = rng.below(10) as u32;
             writeln!(w, "case fshape-{n}").unwrap();
             writeln!(w, "fac {f} {cfg}").unwrap();
-            if ref_fac(&f, cfg, &mut vec![]).res.is_ok() {
+            if ref_fac(&f, cfg, &mut FacTrace::default()).res.is_ok() {
                 emit_ops(&mut w, &mut rng, 4, ready_bias);
             } else {
                 writeln!(w, "ready").unwrap(); // no service: rejected on both sides
@@ -1626,17 +2483,17 @@ fn gen(a: &Args) {
         }
     }
 
-    // (3) random trees of depth ≤ 3
+    // (5) random trees of depth ≤ 3
     let cases = if thorough { 20000 } else { 2000 };
     for c in 0..cases {
         let mut g = G::new(&mut rng, 2);
-        if c % 3 == 2 {
+        if c % 2 == 1 {
             let d = g.rng.range(1, 3);
             let f = g.fac(d);
             let cfg = g.rng.below(10) as u32;
             writeln!(w, "case rfac-{c}").unwrap();
             writeln!(w, "fac {f} {cfg}").unwrap();
-            if ref_fac(&f, cfg, &mut vec![]).res.is_err() {
+            if ref_fac(&f, cfg, &mut FacTrace::default()).res.is_err() {
                 continue;
             }
         } else {
